@@ -49,6 +49,10 @@ COMPONENTS = {"real": ["operon_ai.state.genome.Genome", "operon_ai.state.genome.
               "stub": ["approval callback (scripted fake)", "random.random (draws from the plan)",
                        "datetime.now (virtual clock)"]}
 ASSUMPTIONS = [
+    "every container the library returns (express(), export(), get_statistics(), list_genes()) may be edited by the "
+    "caller; editing it must not change the genome nor a later answer; editing a gene's own value object obtained through "
+    "get_value()/express() in place (e.g. appending to a list-valued gene) is the caller changing the value itself and is "
+    "not generated",
     "a callback 'approves' only by returning True; None/False are refusals",
     "a rollback is itself a logged mutation, so it is 'the last approved mutation' for the next rollback "
     "(follows from 'values change only through logged mutations')",
@@ -73,12 +77,14 @@ EXPECT_PROBES = ("refused_logged", "approved_by_callback", "approver_raised", "a
                  "random_mutation_path", "express_conditional_named", "express_silenced_hidden",
                  "readd_refused", "readd_overwrite", "grandchild", "child_op_parent_checked",
                  "expression_inherited_checked", "inherited_level_differs_from_gene_default",
-                 "context_names_gene_with_falsy_value", "conditional_named_with_falsy_value")
+                 "context_names_gene_with_falsy_value", "conditional_named_with_falsy_value",
+                 "caller_edited_express_answer", "caller_edited_returned_object")
 
 NAMES = ["a", "b", "c", "d"]
 TYPES = ["structural", "regulatory", "housekeeping", "conditional", "dormant"]
 VALUES = [0, 1, 7, -3, 2.5, 10.0, True, False, "x", "gpt-4", None, [1, 2]]
 DRAWS = [0.0, 0.25, 0.49, 0.5, 0.75, 0.999]
+POKES = ["update", "clear", "add", "delete", "nested"]
 CTX_VALUES = [True, True, 1, "on", False, 0, None, "", [], {}, 0.0]
 MAX_LINEAGE = 5
 
@@ -105,7 +111,7 @@ def gen(rng, tier, i):
     draws = [rng.choice(DRAWS) for _ in range(rng.randint(0, 12))] if rate else []
     depth = rng.randint(2, 8 if tier == "quick" else 14)
     table = [(5, "mutate"), (3, "rollback"), (2, "add"), (2.5, "expr"), (2.5, "replicate"), (2.5, "express"),
-             (0.5, "allow")]
+             (0.5, "allow"), (1.2, "reread")]
     ops = []
     hot = []          # names mutated so far (rollback prefers them)
     have = [g[0] for g in genes]
@@ -147,7 +153,11 @@ def gen(rng, tier, i):
         elif o == "express":
             # a context NAMES a gene; the value it carries (truthy or falsy) is irrelevant to the statement
             ctx = None if rng.random() < 0.3 else [[nm, rng.choice(CTX_VALUES)] for nm in sorted(rng.sample(NAMES, rng.randint(0, 3)))]
-            ops.append(["express", g, ctx])
+            # the caller may edit the dict it got back (cfg.update(overrides) ...) and ask again
+            poke = rng.choice(POKES) if rng.random() < 0.45 else None
+            ops.append(["express", g, ctx, poke])
+        elif o == "reread":
+            ops.append(["reread", g, rng.choice(["export", "export", "statistics", "list_genes"]), rng.choice(POKES)])
         else:
             ops.append(["allow", g, rng.random() < 0.5])
     fakes = {"random": draws}
@@ -339,6 +349,28 @@ def _run(plan, k, fake):
             out = call(G.replicate, {a: v for a, v in op[2]}, op[3])
         elif name == "express":
             out = call(G.express, None if op[2] is None else _ctx(op[2]))
+        elif name == "reread":
+            getter = {"export": G.export, "statistics": G.get_statistics, "list_genes": G.list_genes}[op[2]]
+            first = call(getter)
+            if not first.ok:
+                k.violation("total", f"raised:{type(first.exc).__name__}", op[2], repr(first.exc)[:200])
+                return
+            snap = _snap(first.value)
+            _poke(first.value, op[3])
+            second = call(getter)
+            k.ev("reread", [gi, op[2], op[3], second.kind])
+            k.probe("caller_edited_returned_object")
+            if not second.ok:
+                k.violation("total", f"raised:{type(second.exc).__name__}", op[2], repr(second.exc)[:200])
+                return
+            if _snap(second.value) != snap:
+                k.violation("immutable", "returned_object_aliases_state", op[2],
+                            f"{op[2]}() answered differently after the caller edited ({op[3]}) the object it had returned")
+            now = observe(G)
+            if now != m.obs:
+                k.violation("immutable", "value_changed", f"reread_{op[2]}:read_only", f"{m.obs} -> {now}")
+                m.resync()
+            continue
         elif name == "allow":
             G.allow_mutations = bool(op[2])
             m.allow = bool(op[2])
@@ -523,6 +555,19 @@ def _run(plan, k, fake):
             ctx = set(_ctx(op[2] or []))
             if any(not v for v in _ctx(op[2] or []).values()):
                 k.probe("context_names_gene_with_falsy_value")
+            poke = op[3] if len(op) > 3 else None
+            def rendered(answer):
+                return {str(x): _canon_safe(v) for x, v in answer.items()} if isinstance(answer, dict) else None
+            answers = [(rendered(ret), "")]            # judged as it was returned, before the caller touches it
+            if poke and isinstance(ret, dict):
+                _poke(ret, poke, descend=False)      # the values are the genes' own value objects: never edited in place
+                again = call(G.express, None if op[2] is None else _ctx(op[2]))
+                k.ev("express_again", [gi, poke, again.brief()])
+                k.probe("caller_edited_express_answer")
+                if not again.ok:
+                    k.violation("total", f"raised:{type(again.exc).__name__}", "express", repr(again.exc)[:200])
+                    return
+                answers.append((rendered(again.value), ":after_caller_edit"))
             want = {}
             for nm, (cv, gt) in b["genes"].items():
                 if b["expr"].get(nm) == 0:
@@ -537,14 +582,17 @@ def _run(plan, k, fake):
                     if not _ctx(op[2])[nm]:
                         k.probe("conditional_named_with_falsy_value")
                 want[nm] = cv
-            got = {str(x): canon(v) for x, v in ret.items()} if isinstance(ret, dict) else None
-            if got != want:
-                extra = sorted(set(got or {}) - set(want))
-                missing = sorted(set(want) - set(got or {}))
-                kind = ("expressed_excluded_gene" if extra else "missing_active_gene" if missing else "wrong_value")
-                cls = "+".join(sorted({b["genes"][x][1] if b["expr"].get(x) != 0 else "silenced" for x in (extra or missing)
-                                       if x in b["genes"]})) or "value"
-                k.violation("express", kind, cls, f"ctx={sorted(ctx)} want={want} got={got}")
+            for got, tag in answers:
+                if got != want:
+                    extra = sorted(set(got or {}) - set(want))
+                    missing = sorted(set(want) - set(got or {}))
+                    kind = ("expressed_excluded_gene" if extra else "missing_active_gene" if missing else "wrong_value")
+                    cls = "+".join(sorted({b["genes"][x][1] if b["expr"].get(x) != 0 else "silenced" for x in (extra or missing)
+                                           if x in b["genes"]})) or "value"
+                    k.violation("express", kind, cls + tag, f"ctx={sorted(ctx)} want={want} got={got}"
+                                + (" (second call, after the caller edited the first answer)" if tag else ""))
+            if len(answers) > 1 and observe(G) != a:
+                k.violation("immutable", "value_changed", "express:read_only", "state changed by editing express()'s answer")
 
         elif name == "replicate":
             # parent first
@@ -637,6 +685,56 @@ def _run(plan, k, fake):
 
     if attempts >= 1 and (second_look >= 1 or len(lineage) > 1):
         k.nontrivial = True
+
+
+def _canon_safe(v):
+    try:
+        return canon(v)
+    except (TypeError, ValueError):
+        return "<" + type(v).__name__ + ">"
+
+
+def _snap(obj):
+    return json.dumps(obj, sort_keys=True, default=str)
+
+
+POISON = "<edited by the caller>"
+
+
+def _poke(obj, kind, descend=True):
+    """The caller edits a container the library returned.  Only containers the library built are edited (entries are
+    re-assigned or removed); a gene's own value object (e.g. a list-valued gene) is never mutated in place."""
+    if isinstance(obj, dict):
+        if kind == "update":
+            for key in list(obj):
+                obj[key] = POISON
+        elif kind == "clear":
+            obj.clear()
+        elif kind == "add":
+            obj["zz_added"] = POISON
+            for nm in NAMES:
+                obj.setdefault(nm, POISON)
+        elif kind == "delete":
+            for key in list(obj)[:1]:
+                del obj[key]
+        else:   # nested containers one level down
+            for key in list(obj):
+                if descend and isinstance(obj[key], (dict, list)) and key not in ("value",):
+                    _poke(obj[key], "update" if isinstance(obj[key], dict) else "clear")
+                else:
+                    obj[key] = POISON
+    elif isinstance(obj, list):
+        if kind in ("clear", "delete"):
+            del obj[:1 if kind == "delete" else len(obj)]
+        elif kind == "add":
+            obj.append({"name": "zz_added", "value": POISON})
+        else:
+            for item in obj:
+                if isinstance(item, dict):
+                    for key in list(item):
+                        item[key] = POISON
+            if kind == "nested":
+                obj.reverse()
 
 
 def _ctx(entries):
